@@ -73,8 +73,7 @@ func scriptGate(args []string) int {
 	var scriptGID int64
 	arrived := make(chan struct{}, 1)
 	release := make(chan struct{})
-	port := t38.FreePort()
-	t38.SetHook(port, func(s *server.Server, point string, a ...interface{}) {
+	sgHook := func(s *server.Server, point string, a ...interface{}) {
 		if point != "script.call" {
 			return
 		}
@@ -98,8 +97,8 @@ func scriptGate(args []string) int {
 			arrived <- struct{}{}
 			<-rel
 		}
-	})
-	srv, err := t38.Start(t38.Options{Port: port, Spinlock: *spin})
+	}
+	srv, err := t38.Start(t38.Options{Hook: sgHook, Spinlock: *spin})
 	if err != nil {
 		fmt.Fprintln(os.Stderr, err)
 		return 2
